@@ -460,7 +460,120 @@ def run_threads(trace, rng=None):
     return out, baton, st.steps
 
 
+# ------------------------------------------------------------------------------------------------
+# scripted scenarios around one object's history: shared buffers, orbitals attached and removed, orbitals edited
+
+
+def _mo(name):
+    return make_value("mo", name)
+
+
+def gen_scenario(rng):
+    n = rng.choice([1, 2, 3])
+    cores = [float(rng.choice([1, 6, 8, 2.5])) for _ in range(n)]
+    kind = rng.choice(["alias", "alias", "stored", "stored", "moedit"])
+    t = {"scenario": kind, "cores": cores}
+    if kind == "alias":
+        t["how"] = rng.choice(["both_constructed", "assigned_from_other", "caller_keeps"])
+        t["ops"] = [rng.choice([["atcorenums", [float(rng.choice([1, 6, 8, 3.5])) for _ in range(n)], rng.choice(["list", "array"])],
+                                ["charge", rng.choice([0, 1, -1, 0.5])], ["nelec", rng.choice([2, 9, 10])],
+                                ["atnums", [int(rng.choice([1, 6, 8])) for _ in range(n)]]]) for _ in range(rng.randint(1, 4))]
+    elif kind == "stored":
+        t["assign"] = rng.sample([["nelec", rng.choice([2, 9, 9.5])], ["spinpol", rng.choice([0, 1, 2, 0.4])], ["charge", rng.choice([0, 1, -1, 0.5])]], rng.randint(1, 3))
+        t["mo"] = rng.choice(["R2", "R21", "U2", "Rfrac", "Rnone", "Unone"])
+        t["reads_between"] = rng.random() < 0.5
+    else:
+        t["mo"] = rng.choice(["U2", "U2", "R21"])
+        t["first_read"] = rng.random() < 0.8
+        t["edit"] = rng.choice([["occsb", [1.0, 1.0]], ["occsa", [1.0, 0.0]], ["occsb", [0.0, 0.0]], ["occs_index", 0, 0.25]])
+    return t
+
+
+def run_scenario(t):
+    from iodata import IOData
+
+    out = []
+
+    def v(cls, msg):
+        out.append({"cls": cls, "sig": f"{cls}|{t['scenario']}", "msg": msg, "trace": copy.deepcopy(t)})
+
+    cores = np.array(t["cores"], dtype=float)
+    try:
+        if t["scenario"] == "alias":
+            shared = cores
+            pristine = shared.copy()
+            a = IOData(atcorenums=shared)
+            if t["how"] == "both_constructed":
+                b = IOData(atcorenums=shared)
+            elif t["how"] == "assigned_from_other":
+                b = IOData()
+                b.atcorenums = a.atcorenums
+            else:
+                b = None
+            vb = None if b is None else view(b)
+            for k, op in enumerate(t["ops"]):
+                val = op[1]
+                if op[0] == "atcorenums":
+                    val = np.array(val, dtype=float) if op[2] == "array" else list(val)
+                elif op[0] == "atnums":
+                    val = np.array(val)
+                try:
+                    setattr(a, op[0], val)
+                except (TypeError, ValueError):
+                    pass
+                if not np.array_equal(shared, pristine):
+                    v("I8_caller_array_modified", f"step {k}: assigning {op[0]}={op[1]} to one object wrote into the caller's own core-charge array: {pristine.tolist()} -> {shared.tolist()}")
+                    break
+                if b is not None and view(b) != vb:
+                    d = [n_ for n_ in vb if vb[n_] != view(b)[n_]]
+                    v("I8_other_object_changed", f"step {k}: assigning {op[0]}={op[1]} to one object changed {d} of another object that was given the same array")
+                    break
+        elif t["scenario"] == "stored":
+            a = IOData(atcorenums=cores)
+            for name, val in t["assign"]:
+                try:
+                    setattr(a, name, val)
+                except (TypeError, ValueError):
+                    pass
+            r0 = {n_: read_on_copy(a, n_) for n_ in ("charge", "nelec", "spinpol")}
+            a.mo = _mo(t["mo"])
+            if t["reads_between"]:
+                for n_ in ("nelec", "charge", "spinpol"):
+                    try:
+                        getattr(a, n_)
+                    except Exception:  # noqa: BLE001
+                        pass
+            a.mo = None
+            r1 = {n_: read_on_copy(a, n_) for n_ in ("charge", "nelec", "spinpol")}
+            bad = [n_ for n_ in r0 if not (_close(r0[n_], r1[n_]))]
+            if bad:
+                v("I2_assigned_value_lost", f"after {t['assign']} the object read {r0}; orbitals ({t['mo']}) were attached and removed again; now it reads {r1}")
+        else:
+            a = IOData(atcorenums=cores, mo=_mo(t["mo"]))
+            if t["first_read"]:
+                _ = a.nelec, a.charge
+            e = t["edit"]
+            try:
+                if e[0] == "occs_index":
+                    a.mo.occs[e[1]] = e[2]
+                elif a.mo.kind == "unrestricted" or e[0] == "occsa":
+                    setattr(a.mo, e[0], np.array(e[1][: (a.mo.norba if e[0] == "occsa" else a.mo.norbb)] + [0.0] * 3)[: (a.mo.norba if e[0] == "occsa" else a.mo.norbb)])
+            except (TypeError, ValueError, NotImplementedError):
+                return out
+            want = float(np.sum(a.mo.occs))
+            got = a.nelec
+            if not _close(got, want):
+                v("I4_nelec_not_of_the_orbitals", f"after editing the attached orbitals ({e}) their occupations sum to {want} but the object's nelec reads {got}")
+            elif not _close(a.charge, float(cores.sum()) - want):
+                v("I1_charge_relation", f"after editing the attached orbitals ({e}) charge reads {a.charge}, core charges sum to {cores.sum()} and the orbitals hold {want} electrons")
+    except AccessorRaised as exc:
+        v("I0_accessor_crashes", str(exc))
+    return out
+
+
 def execute(trace):
+    if "scenario" in trace:
+        return run_scenario(trace)
     if trace.get("pyopt") and not sys.flags.optimize:
         from sim import pyopt
 
@@ -585,6 +698,9 @@ def plan(tier, seed, args):
         for i in range(n // 2):
             tasks.append({"run": run, "seed": seed, "tier": tier, "threads": 12})
             run += 1
+        for i in range(max(20, n // 10)):
+            tasks.append({"run": run, "seed": seed, "tier": tier, "scenarios": 60})
+            run += 1
     return tasks
 
 
@@ -624,6 +740,14 @@ def run_task(task):
         return {"n": task["threads"], "digest": common.short(repr(dig)), "violations": viols, "stats": stats.export(),
                 "sample": {"mode": "threads", "histories": [h["ops"][:4] for h in trace["histories"]], "policy": trace["policy"],
                            "switches": len(baton.switches)} if task["run"] % 101 == 0 else None}
+    if "scenarios" in task:
+        for _ in range(task["scenarios"]):
+            t = gen_scenario(rng)
+            vs = run_scenario(t)
+            viols.extend(vs)
+            stats.inc(f"outcome.scenario_{t['scenario']}")
+            dig.append((common.short(common.jdump(t)), len(vs)))
+        return {"n": task["scenarios"], "digest": common.short(repr(dig)), "violations": viols, "stats": stats.export(), "sample": None}
     if "exh" in task:
         traces = exhaustive_histories(*task["exh"])
         stats.add("exhaustive_spaces", f"construct<={task['exh'][0]}args x depth<={task['exh'][1]}")
@@ -654,6 +778,12 @@ def run_task(task):
 
 def shrink(trace, still_fails):
     t = copy.deepcopy(trace)
+    if "scenario" in t:
+        if t["scenario"] == "alias" and len(t["ops"]) > 1:
+            t["ops"] = shr.ddmin_list(t["ops"], lambda o: still_fails({**t, "ops": o}), min_len=1)
+        if t["scenario"] == "stored" and len(t["assign"]) > 1:
+            t["assign"] = shr.ddmin_list(t["assign"], lambda a_: still_fails({**t, "assign": a_}), min_len=1)
+        return t
     if "histories" in t:
         if t.get("schedule"):
             t["schedule"] = shr.ddmin_list(t["schedule"], lambda sc: still_fails({**t, "schedule": sc}))
